@@ -12,6 +12,7 @@ pub mod c09;
 pub mod c10;
 pub mod c11;
 pub mod c12;
+pub mod c14;
 pub mod c16;
 pub mod c18;
 pub mod c19;
@@ -20,7 +21,8 @@ pub mod c21;
 pub mod c22;
 pub mod c23;
 pub mod c24;
+pub mod surface;
 
 pub fn all() -> Vec<PropertyDef> {
-    vec![c01::def(), c02::def(), c03::def(), c04::def(), c05::def(), c06::def(), c07::def(), c08::def(), c09::def(), c10::def(), c11::def(), c12::def(), c16::def16(), c16::def17(), c18::def(), c19::def(), c20::def(), c21::def(), c22::def(), c23::def(), c24::def()]
+    vec![c01::def(), c02::def(), c03::def(), c04::def(), c05::def(), c06::def(), c07::def(), c08::def(), c09::def(), c10::def(), c11::def(), c12::def(), c14::def13(), c14::def14(), c14::def15(), c16::def16(), c16::def17(), c18::def(), c19::def(), c20::def(), c21::def(), c22::def(), c23::def(), c24::def()]
 }
